@@ -27,7 +27,7 @@ func init() {
 			lockRuleFor("C20-R5", 4, []string{"log"}, []string{}, map[string]string{}),
 			c20R6, func(c *Ctx, r *Report) { siblingRule(c, r, "C20-R7", sibLog) }, c20R8,
 			func(c *Ctx, r *Report) {
-				r.SetFloor("C20-R9", 1)
+				r.SetFloor("C20-R9", 5)
 				boundsRule(c, r, "C20-R9", "writing or formatting a log line", "log.writer", "log.formatLine", "log.log", "log.(*ContextTracer).Submit", "log.(*ContextTracer).log", "log.AddTracer")
 			}},
 	})
